@@ -174,11 +174,16 @@ def desugar(prog, fn, max_sites=24):
                     break
                 skip.add(b)
                 continue
+            is_then = cal.endswith("<impl bool>::then")
             spec = next((v for k, v in COMBINATORS.items() if cal.endswith(k)), None)
-            if spec is None or len(c["args"]) != 2 or c.get("target") is None:
+            if (spec is None and not is_then) or len(c["args"]) != 2 or c.get("target") is None:
                 continue
             opj = c["args"][0].get("mv") or c["args"][0].get("cp")
             cpj = c["args"][1].get("mv") or c["args"][1].get("cp")
+            fitem = (c["args"][1].get("k") or {}).get("fn") if "k" in c["args"][1] else None
+            if is_then and opj is not None and fitem and isinstance(fitem, str):
+                site = (b, c, "then-fn", opj, None, fitem, None)  # `c.then(f)` with a fn item: no environment, called directly
+                break
             if opj is None or cpj is None or cpj.get("p"):
                 skip.add(b)
                 continue
@@ -191,10 +196,59 @@ def desugar(prog, fn, max_sites=24):
             if cj is None or not cj.get("blocks"):
                 skip.add(b)
                 continue
-            site = (b, c, spec, opj, cpj, cname, cj)
+            site = (b, c, "then" if is_then else spec, opj, cpj, cname, cj)
             break
         if site is None:
             break
+        if site[2] == "then-fn":
+            b, c, _, bj, _, fname, _ = site
+            fj = copy.deepcopy(cur.j)
+            ln = fj["blocks"][b]["t"].get("ln")
+            call = fj["blocks"][b]["t"]["call"]
+            dest, tgt = call["dest"], call["target"]
+            rty = _payload_ty(fj["locals"][dest["l"]]["ty"], _OPT[0], "Some") if not dest.get("p") else "?"
+            fj["locals"].append({"ty": rty, "name": None})
+            r = len(fj["locals"]) - 1
+            fj["blocks"].append({"s": [{"a": copy.deepcopy(dest), "rv": {"agg": "adt", "adt": _OPT[0], "variant": "Some", "fnames": ["0"], "fields": [{"mv": {"l": r}}]}, "ln": ln}],
+                                 "t": {"goto": tgt, "ln": ln}})
+            after = len(fj["blocks"]) - 1
+            fj["blocks"].append({"s": [], "t": {"call": {"decl": fname, "callee": fname, "substs": [], "rsubsts": [], "via": "direct", "args": [], "argtys": [],
+                                                         "dest": {"l": r}, "target": after}, "ln": ln}})
+            run = len(fj["blocks"]) - 1
+            fj["blocks"].append({"s": [{"a": copy.deepcopy(dest), "rv": {"agg": "adt", "adt": _OPT[0], "variant": "None", "fnames": [], "fields": []}, "ln": ln}],
+                                 "t": {"goto": tgt, "ln": ln}})
+            none = len(fj["blocks"]) - 1
+            fj["blocks"][b]["t"] = {"switch": copy.deepcopy(call["args"][0]), "sty": "bool", "targets": [["0", none]], "otherwise": run, "ln": ln}
+            cur = Fn(fn.name, fj, crate)
+            done += 1
+            continue
+        if site[2] == "then":
+            # `c.then(|| v)` == `if c { Some(v()) } else { None }`
+            b, c, _, bj, cpj, cname, cj = site
+            fj = copy.deepcopy(cur.j)
+            ln = fj["blocks"][b]["t"].get("ln")
+            call = fj["blocks"][b]["t"]["call"]
+            dest, tgt = call["dest"], call["target"]
+            fj["locals"].append({"ty": cj["locals"][0]["ty"], "name": None})
+            r = len(fj["locals"]) - 1
+            ety = cj["locals"][1]["ty"]
+            fj["locals"].append({"ty": ety, "name": None})
+            e = len(fj["locals"]) - 1
+            env_stmt = {"a": {"l": e}, "rv": ({"ref": {"l": cpj["l"]}, "mut": ety.startswith("&mut")} if ety.startswith("&") else {"use": {"mv": {"l": cpj["l"]}}}), "ln": ln}
+            fj["blocks"].append({"s": [{"a": copy.deepcopy(dest), "rv": {"agg": "adt", "adt": _OPT[0], "variant": "Some", "fnames": ["0"], "fields": [{"mv": {"l": r}}]}, "ln": ln}],
+                                 "t": {"goto": tgt, "ln": ln}})
+            after = len(fj["blocks"]) - 1
+            fj["blocks"].append({"s": [env_stmt], "t": {"call": {"decl": cname, "callee": cname, "substs": [], "rsubsts": [], "via": "direct", "args": [{"mv": {"l": e}}],
+                                                                 "argtys": [ety], "dest": {"l": r}, "target": after}, "ln": ln}})
+            run = len(fj["blocks"]) - 1
+            fj["blocks"].append({"s": [{"a": copy.deepcopy(dest), "rv": {"agg": "adt", "adt": _OPT[0], "variant": "None", "fnames": [], "fields": []}, "ln": ln}],
+                                 "t": {"goto": tgt, "ln": ln}})
+            none = len(fj["blocks"]) - 1
+            fj["blocks"][b]["t"] = {"switch": copy.deepcopy(call["args"][0]), "sty": "bool", "targets": [["0", none]], "otherwise": run, "ln": ln}
+            inline_call(fj, run, cj, cname)
+            cur = Fn(fn.name, fj, crate)
+            done += 1
+            continue
         if site[2] == "then_some":
             # `c.then_some(v)` == `if c { Some(v) } else { None }` (v is evaluated either way: it already is an operand)
             b, c, _, bj, _, _, _ = site
